@@ -11,12 +11,14 @@ Protocol with the coordinator: one JSON document per line on the (dup'ed) stdin/
 from __future__ import annotations
 
 import faulthandler
+import gc
 import json
 import os
 import signal
 import sys
 import traceback
 
+_FORKS = 0
 CHILD_TIMEOUT = 30  # wall seconds per forked run; exceeding it is a harness error, never a pass
 
 
@@ -31,6 +33,17 @@ def fork_run(fn, arg, timeout: int = CHILD_TIMEOUT):
     """
     r, w = os.pipe()
     sys.stderr.flush()
+    # The cyclic collector runs when allocation counters cross thresholds, and a collection can
+    # finalise suspended generators left behind by an aborted conversion (visible to the tracer as
+    # extra events).  Freezing right before the fork empties the generations and zeroes the
+    # counters, so collector timing in the child is a pure function of the child's own allocations,
+    # whatever the age of the template.
+    global _FORKS
+    _FORKS += 1
+    if _FORKS % 400 == 0:
+        gc.unfreeze()
+        gc.collect()
+    gc.freeze()
     pid = os.fork()
     if pid == 0:
         code = 97
@@ -78,6 +91,59 @@ def fork_run(fn, arg, timeout: int = CHILD_TIMEOUT):
     return json.loads(data)
 
 
+def warm_stdlib(pkg_main_file: str):
+    """Fill the caches of the STANDARD LIBRARY (argparse/gettext, re, codecs, linecache, importlib,
+    ast) in the template so that children do not pay for them on every run.  Nothing here calls
+    into the package under test, so its state stays that of a fresh process."""
+    import argparse
+    import ast
+    import codecs
+    import contextlib
+    import importlib.util
+    import io
+    import linecache
+    import symtable
+    import traceback
+    import warnings
+
+    p = argparse.ArgumentParser(description="x")
+    p.add_argument("-C", action="append", type=str, help="h")
+    p.add_argument("input_filename", type=str, help="h")
+    p.add_argument("-v", "--version", action="version", version="v")
+    p.add_argument("-o", "--output", type=str, help="h")
+    p.add_argument("--unparser", type=str, choices=["a", "b"])
+    p.parse_args(["-Ca=b", "f", "-o", "x", "--unparser", "a"])
+    for bad in (["--bogus"], ["-C"], ["f", "--unparser", "zz"], []):
+        try:
+            with contextlib.redirect_stderr(io.StringIO()):
+                p.parse_args(bad)
+        except SystemExit:
+            pass
+    p.format_help()
+    for enc in ("utf-8", "utf8", "ascii", "latin-1", "cp1252", "utf-8-sig", "unicode_escape", "raw_unicode_escape"):
+        codecs.lookup(enc)
+        "x\u00e9".encode(enc, "replace")
+    try:
+        importlib.util.find_spec("oneliner.__main__")
+    except Exception:
+        pass
+    linecache.getlines(pkg_main_file)
+    src = "import os\ndef f(a, b=1, *c, d, **e):\n    return [x for x in (a, b)]\nclass K(object):\n    pass\nprint(f'{f(1, d=2)!r:>4}', 1 if f else 2)\n"
+    tree = ast.parse(src)
+    ast.unparse(tree)
+    ast.dump(tree)
+    symtable.symtable(src, "<warm>", "exec")
+    compile(src, "<warm>", "exec")
+    try:
+        raise ValueError("x")
+    except ValueError:
+        traceback.format_exc()
+    with warnings.catch_warnings(record=True):
+        warnings.simplefilter("always")
+        warnings.warn("warm", DeprecationWarning)
+    io.TextIOWrapper(io.BufferedWriter(io.BytesIO()), "latin-1").write("x")
+
+
 class Template:
     """State held by the template parent: static data and caches of *results* only."""
 
@@ -91,6 +157,7 @@ class Template:
 
     def ident(self):
         return {"host": self.host, "hashseed": self.hashseed, "exe": sys.executable, "pad": self.pad,
+                "opt": int(sys.flags.optimize),
                 "aslr_disabled": _aslr_disabled()}
 
 
@@ -135,6 +202,7 @@ def main(argv=None):
         proto_out.write(json.dumps({"fatal": "oneliner imported from %s, not from %s" % (pkg_file, repo)}) + "\n")
         return 3
 
+    warm_stdlib(os.path.join(os.path.dirname(pkg_file), "__main__.py"))
     tpl = Template(repo, wid)
     from sim import c10, c16
 
